@@ -229,7 +229,9 @@ fn main_inner() -> Result<(), RunError> {
             eprintln!("error: in multi mode, the top-level value must be an object");
             return Err(RunError::Generic);
         };
-        let mut path_list = String::new();
+        // Manifest every field before writing any file, so that a failure
+        // does not leave a partial set of output files behind.
+        let mut reprs = Vec::with_capacity(fields.len());
         for (field_name, field_value) in fields.iter() {
             session.push_custom_stack_trace_item(format!(
                 "during manifestation of object field {}",
@@ -237,7 +239,10 @@ fn main_inner() -> Result<(), RunError> {
             ));
             let repr = value_to_repr(&args, &mut session, field_value)?;
             session.pop_custom_stack_trace_item();
-            let path = dir_path.join(field_name.value());
+            reprs.push((dir_path.join(field_name.value()), repr));
+        }
+        let mut path_list = String::new();
+        for (path, repr) in reprs {
             match std::fs::write(&path, repr.as_bytes()) {
                 Ok(()) => {}
                 Err(e) => {
